@@ -15,23 +15,23 @@ import (
 // Op is one generated client operation and, through its unique Tag, the script of
 // what the handler that receives it does.
 type Op struct {
-	Idx    int
-	Tag    string
-	Kind   string // "call" | "async" | "push"
-	Route  string // "echo" | "plain" | "bytes" | "note" | "note_plain" | explicit service method when Raw
-	Data   string
-	N      int64
-	MetaK  string
-	MetaV  string
+	Idx   int
+	Tag   string
+	Kind  string // "call" | "async" | "push"
+	Route string // "echo" | "plain" | "bytes" | "note" | "note_plain" | explicit service method when Raw
+	Data  string
+	N     int64
+	MetaK string
+	MetaV string
 	// MetaSteps: further metadata settings applied in order after MetaK: {"add",k,v} | {"set",k,v} | {"del",k,""}
 	// (keys from ExtraMetaKeys); HDelMeta: the handler deletes that key from its input metadata when it is done
 	MetaSteps [][3]string
 	HDelMeta  string
-	Codec  byte
-	Pipe   []byte
-	Conn   int  // index of the session pair
-	ToSrv  bool // issued on the client-side session (towards the server side)
-	Caller int  // caller task index on that session end
+	Codec     byte
+	Pipe      []byte
+	Conn      int  // index of the session pair
+	ToSrv     bool // issued on the client-side session (towards the server side)
+	Caller    int  // caller task index on that session end
 	// handler script
 	HYield int
 	HSleep time.Duration
@@ -46,7 +46,7 @@ type Op struct {
 	// HPanicKind: what a panicking handler panics with - 0 a string, 1 an error, 2.. a *Status (as ThrowStatus and
 	// CheckStatus do) with code OK, a small code, 404 or a large code; the text is its cause
 	HPanicKind int
-	HNested     bool // call back to the caller before returning
+	HNested    bool // call back to the caller before returning
 	// results
 	Issued    bool
 	IssuedAt  int
